@@ -25,6 +25,9 @@ RULE = (
     "(C13) predicates, and the continuation meets its own oracles. Non-trivial = the fault hit a subsystem in a "
     "shared block or at vector/matrix level; distinct = (fault, mode, entry, storage, representation, layout hash)."
 )
+from pw_verif.props._machine import HISTORY_NOTE, SURVIVOR_NOTE  # noqa: E402,F401
+
+RULE += HISTORY_NOTE + " One case in eight is a refused construction: an Operation is built and applied, the construction of another one is refused (missing parameter; for multi-subsystem expressions with operand types that differ from every operation built before), and the first object is applied again. Continuation: when a step after the refused request fails the oracle of its own property, the same program is executed without the refused request; if that passes every oracle the refused request is what broke the program (verdict 'continuation-broken-by-rejected-call')."
 ASSUMPTIONS = ["reference self-tests passed", "which exception class is raised is not checked", "a vacuum is 'exact' when the reduced state has exactly zero population above level 0",
                "Fock custom operators of another size are valid requests (they resize the space) and are not injected as faults"]
 
